@@ -39,13 +39,14 @@ EXC_KINDS = {"typeError", "valueError", "unannotated", "defaultAlreadySet"}
 
 # ------------------------------------------------------------------------------------------ option space
 FIELD_DEFAULT = {
-    "bare": False, "annotated": False, "dflt": False, "factory": False, "deco": False, "init": True,
+    "bare": False, "annotated": False, "dflt": False, "factory": False, "deco": False, "decoMore": 0, "valDeco": 0,
+    "init": True,
     "kwOnly": False, "cmp": "none", "eq": "none", "order": "none", "hash": "none", "onSetattr": "none",
     "typeArg": False, "validator": False, "converter": False,
 }
 FIELD_SPACE = {
     "bare": [False, True], "annotated": [False, True], "dflt": [False, True], "factory": [False, True],
-    "deco": [False, True], "init": [True, False], "kwOnly": [False, True],
+    "deco": [False, True], "decoMore": [0, 1, 2], "valDeco": [0, 1, 2], "init": [True, False], "kwOnly": [False, True],
     "cmp": ["none", "t", "f", "key"], "eq": ["none", "t", "f", "key"], "order": ["none", "t", "f", "key"],
     "hash": ["none", "t", "f", "bad"], "onSetattr": ["none", "hook", "noop"],
     "typeArg": [False, True], "validator": [False, True], "converter": [False, True],
@@ -466,11 +467,37 @@ def _make_field(f, cfg, reg=None):
         ca = attrs.field(**kw)
     else:
         ca = attr.ib(**kw)
-    if f["deco"]:
-        def _dflt(self):
-            return 0
+    # decorators in the class body, in sequence: @x.validator any number of times (accumulates), @x.default
+    expected = _flat_validators(ca._validator)
+    for i in range(f.get("valDeco", 0)):
+        def _v(self, a, v, _i=i):
+            return None
+        ca.validator(_v)
+        expected.append(_v)
+    for i in range((1 + f.get("decoMore", 0)) if f["deco"] else 0):
+        def _dflt(self, _i=i):
+            return _i
         ca.default(_dflt)
+    if [id(v) for v in _flat_validators(ca._validator)] != [id(v) for v in expected]:
+        raise ValidatorsLost(f["name"])
+    if f.get("valDeco", 0):
+        _EXPECT_VALIDATORS[f["name"]] = expected
     return ca
+
+
+class ValidatorsLost(Exception):
+    """@x.validator applied several times must keep every validator, in order"""
+
+
+_EXPECT_VALIDATORS: dict = {}
+
+
+def _flat_validators(v):
+    if v is None:
+        return []
+    if isinstance(v, attr._make._AndValidator):
+        return [w for x in v._validators for w in _flat_validators(x)]
+    return [v]
 
 
 def _base_attr(a):
@@ -834,7 +861,21 @@ def _retry_differs(case, cfg, cls, bases, ns, these):
     return ["retry differs: " + ",".join(sorted(k for k in set(got) | set(want) if got.get(k) != want.get(k)))]
 
 
+def _validators_lost(res):
+    """on a defined class every validator added with @x.validator is still there, in order"""
+    out = []
+    if not _EXPECT_VALIDATORS:
+        return out
+    by_name = {a.name: a for a in getattr(res, "__attrs_attrs__", ()) if not a.inherited}
+    for n, exp in _EXPECT_VALIDATORS.items():
+        a = by_name.get(n)
+        if a is not None and [id(v) for v in _flat_validators(a.validator)] != [id(v) for v in exp]:
+            out.append(f"validators of {n}")
+    return out
+
+
 def _observe(case):
+    _EXPECT_VALIDATORS.clear()
     if "foreign" in case:
         return _observe_foreign(case)
     cfg = case.get("cfg") or {}
@@ -843,6 +884,8 @@ def _observe(case):
     del _KEEP[:]
     try:
         bases, ns, these = _build(case, cfg, reg)
+    except ValidatorsLost as e:
+        return {"exc": "other", "touched": [f"validators of {e}"]}
     except Exception as e:  # noqa: BLE001
         return {"exc": _kind(e), "touched": []}
     if case["api"] == "makeClass":
@@ -872,10 +915,10 @@ def _observe(case):
                 deco = attrs.define(**kw)
         else:
             deco = attr.s(**kw)
-        deco(cls)
+        res = deco(cls)
     except Exception as e:  # noqa: BLE001
         return {"exc": _kind(e), "touched": _diff(cls, snap, these) + _retry_differs(case, cfg, cls, bases, ns, these)}
-    return {"exc": None, "touched": []}
+    return {"exc": None, "touched": _validators_lost(res)}
 
 
 _COUNT = [0]
@@ -940,6 +983,10 @@ def normalize(c):
         if f["name"] in seen:
             continue
         seen.add(f["name"])
+        f.setdefault("decoMore", 0)
+        f.setdefault("valDeco", 0)
+        if f["decoMore"]:
+            f["deco"] = True
         if f["bare"]:
             f = dict(FIELD_DEFAULT, name=f["name"], bare=True, annotated=True, dflt=f["dflt"])
         fields.append(f)
@@ -984,7 +1031,7 @@ def _applies_any_field_rule(c):
             return "fieldHashNotBool"
         if f["dflt"] and f["factory"]:
             return "defaultAndFactory"
-        if f["deco"] and (f["dflt"] or f["factory"]):
+        if f["deco"] and (f["dflt"] or f["factory"] or f.get("decoMore")):
             return "secondDefault"
     return None
 
@@ -1163,6 +1210,7 @@ def seeds():
         ([A(eq="f"), Bf(order="f", eq="key"), Cf(cmp="key", dflt=True)], []),
         ([A(hash="t"), Bf(hash="f", dflt=True)], []),
         ([A(deco=True)], []),
+        ([A(valDeco=2), Bf(deco=True, valDeco=1)], []),
     ]
     for fields, base in shapes:
         for api in ("attrS", "define", "makeClass"):
@@ -1297,8 +1345,13 @@ def rule_grid():
         for h in HASH:
             yield M([A(hash=h, **ann)])
             yield M([A(**ann), Bf(hash=h, dflt=True, **ann)])
-        for dflt, fac, deco in itertools.product([False, True], repeat=3):
-            yield M([A(dflt=dflt, factory=fac, deco=deco, **ann)])
+        # every sequence of default sources: default= / factory= at creation, then @x.default 0..3 times; and
+        # @x.validator 0..2 times next to validator= (valid: validators accumulate)
+        for dflt, fac, nd, nv, v in itertools.product([False, True], [False, True], [0, 1, 2, 3], [0, 1, 2], [False, True]):
+            yield M([A(dflt=dflt, factory=fac, deco=nd > 0, decoMore=max(nd - 1, 0), valDeco=nv, validator=v, **ann)])
+        for nd, nv in itertools.product([1, 2, 3], [0, 2]):
+            yield M([A(**ann), Bf(deco=True, decoMore=nd - 1, valDeco=nv, **ann)], cfg={"fieldApi": "field"})
+            yield M([A(valDeco=2, **ann)], onSetattr="validate", ownSetattr=True, autoDetect="t")
         for annot, ty in itertools.product([False, True], repeat=2):
             yield M([A(annotated=annot, typeArg=ty)])
             yield M([A(annotated=annot, typeArg=ty), Bf(bare=True, annotated=True)])
@@ -1588,6 +1641,11 @@ def gen_cases(tier, rng):
         for k, c3 in enumerate(c03.gen_cases("quick", _random.Random(rng.randrange(1 << 30)))):
             if k >= n03:
                 break
+            # two init fields sharing a parameter name (`_b` and `b`) make the generated __init__ a SyntaxError:
+            # not a valid Python class definition, outside the property's table
+            al = [f["name"].lstrip("_") for f in c3["fields"]]
+            if len(set(al)) != len(al):
+                continue
             yield from_c03(c3)
     except ImportError:
         pass
